@@ -134,6 +134,21 @@ def oracle_kernel_equiv(c):
     m = oracle_loc_inside(c)
     if m:
         return m
+    if c.op and c.op[0] == "open_subpath":
+        fl = int(c.op[1])
+        if fl & (0o100 | 0o200) or (fl & 0o20200000) == 0o20200000:
+            # a one-shot open never creates anything: creation flags are refused before any system call
+            if c.res[:2] != ["err", "InvalidArgument"]:
+                return f"open_subpath with creation flags {fl:#o} was not refused: {' '.join(c.res[:4])}"
+            if c.events:
+                return "open_subpath made system calls although creation flags must be refused up front"
+            if c.snaps:
+                return f"a refused open changed the tree: {' '.join(c.snaps[0])}"
+            return None
+    if c.op and c.op[0] in ("resolve", "open_subpath", "readlink"):
+        fl = int(c.op[1]) if c.op[0] == "open_subpath" else 0
+        if c.snaps and not (fl & 0o1000):
+            return f"a lookup changed the tree: {' '.join(c.snaps[0])}"
     if c.kern is None:
         return None
     a = canon_res(c.res)
